@@ -43,7 +43,8 @@ static void drv_setup(int argc, char **argv)
     for (k = 0; k <= MAXK; k++) for (j = 0; j < 3; j++) { KO[k][j].tag = j; KO[k][j].value = 1000 - k; }
 }
 static void drv_header(jb_t *b) { jb_printf(b, "\"nk\":%d", NK); }
-static void drv_reset(void) { a_reset(); cstl_map_init(&M, kcmp, E_PRIV); }
+static int nclr;            /* clears so far on the path from reset: what follows a clear must behave like a fresh map (C15) */
+static void drv_reset(void) { a_reset(); cstl_map_init(&M, kcmp, E_PRIV); nclr = 0; }
 static void drv_aborted(void) { a_end(); }
 /* model key k (1..NK, ascending order of comparison) is stored in KO[NK + 1 - k] (descending addresses) */
 static struct kobj *kobj(int k, int j) { return (k == NULLK && j == 1 && NK >= NULLK) ? NULL : &KO[NK + 1 - k][j]; }
@@ -68,6 +69,8 @@ static void drv_apply(const vop_t *op, jb_t *res)
     const int *a = op->a;
     cstl_map_iterator_t it; int r;
     memset(&it, 0x5a, sizeof it);
+    jb_printf(res, ",\"nclr\":%d", nclr);
+    if (op->k == 4) nclr++;
     switch (op->k) {
     case 0:
         a_begin(a[3] ? 1UL : 0UL); r = cstl_map_insert(&M, kobj(a[0], a[1]), vptr(a[2]), a[4] ? NULL : &it); a_end();
